@@ -179,6 +179,13 @@ func (c *Ctx) staleTip(rule string, fns []*FuncInfo, clause string) (sites, hits
 			case "ConnectNodes":
 				for _, a := range call.Args {
 					evs = append(evs, ev{"add", c.canon(info, a, o), call.Pos()})
+					// a local that holds one of several nodes (`newroot, other := n1, n2`, exchanged in
+					// a branch): each of the nodes it may hold
+					if lo := identObj(info, a); lo != nil {
+						for _, v := range localValues(info, fi.Decl.Body, lo) {
+							evs = append(evs, ev{"add", c.canon(info, v, o), call.Pos()})
+						}
+					}
 				}
 			case "Tip":
 				if ok && len(call.Args) == 0 {
@@ -476,4 +483,32 @@ func (c *Ctx) freshPerItem(rule string, fi *FuncInfo, fillMethods map[string]boo
 		return true
 	})
 	return n
+}
+
+// localValues: the right-hand sides assigned to local v anywhere in body (definitions and plain
+// assignments, tuple forms included); nil when some assignment cannot be matched to a value.
+func localValues(info *types.Info, body ast.Node, v types.Object) []ast.Expr {
+	var out []ast.Expr
+	ok := true
+	ast.Inspect(body, func(n ast.Node) bool {
+		as, isAs := n.(*ast.AssignStmt)
+		if !isAs {
+			return true
+		}
+		for i, l := range as.Lhs {
+			if identObj(info, l) != v {
+				continue
+			}
+			if len(as.Lhs) != len(as.Rhs) {
+				ok = false
+				continue
+			}
+			out = append(out, as.Rhs[i])
+		}
+		return true
+	})
+	if !ok || len(out) < 2 {
+		return nil
+	}
+	return out
 }
